@@ -46,7 +46,7 @@ def cfg_jobs(multi, binsearch, greater, tier, ls=4, is_=4, reduced=False):
         return (['FIX_SHAPE=1'] if len(fills) == 1 else ['FIX_SHAPE=2', 'FIX_RUSE=%d' % (len(fills) - 1)]) + ['FIX_FILLS=%s' % fills]
     J('insert_empty', 'insert', 'c_insert', INS, ['FIX_SHAPE=0'], mem_gb=1, unwindset=['ir_memset.0:70'], what='insert into the empty tree')
     J('erase_one_empty', 'erase', 'c_erase', ERA, ['KIND=0', 'FIX_SHAPE=0'], mem_gb=1, what='erase_one on the empty tree')
-    J('clear_empty', 'clear', 'c_clear', [r'clear\(\)'], ['FIX_SHAPE=0'], mem_gb=1, what='clear() / destructor of the empty tree')
+    J('clear_empty', 'clear', 'c_clear', [r'clear\(\)'], ['FIX_SHAPE=0'], mem_gb=1, unwindset=['ir_memset.0:70'], what='clear() / destructor of the empty tree')
     import itertools
     q_ins = ['1', '4', '44', '24', '42', '234'] if not reduced else ['4']
     q_era = ['1', '2', '22', '23', '32'] if not reduced else ['2']
@@ -77,7 +77,8 @@ def cfg_jobs(multi, binsearch, greater, tier, ls=4, is_=4, reduced=False):
               resolve={'ERID': r'erase_iter_descend\('}, unwindset=['{ERID}:1', '{ERID}.0:1'],
               what='erase(iterator) of the first key of the middle leaf, leaf fills %s (underflow between two siblings with spare keys)' % fl)
     for fl in ('3', '23', '234'):
-        J('clear_f' + fl, 'clear', 'c_clear', [r'clear\(\)', r'clear_recursive\(', r'free_node\('], shape(fl), tier='thorough', what='clear() / destructor with leaf fills %s' % fl)
+        J('clear_f' + fl, 'clear', 'c_clear', [r'clear\(\)', r'clear_recursive\(', r'free_node\('], shape(fl), tier=(tier if not reduced else 'thorough'), mem_gb=2,
+          resolve={'CLR': r'clear_recursive\('}, unwindset=['ir_memset.0:70', '{CLR}:1'], what='clear() / destructor with leaf fills %s: every node freed exactly once, empty well-formed tree left' % fl)
     # count() walks over all duplicates: up to every key of the tree
     J('lookup', 'lookup', 'c_lookup', [r'exists\(', r'count\(', r'size\(\) const', r'empty\(\) const'], resolve={'COUNT': r'^tlx::BTree<.*>::count\(unsigned char const&\) const'},
       unwindset=['{COUNT}.0:%d' % ((is_ + 1) * ls + 2), '{COUNT}.1:%d' % ((is_ + 1) * ls + 2)], tier=('thorough' if reduced else tier), what='exists / count / size / empty equal the view')
